@@ -22,6 +22,7 @@
 static int g_prepend = 0, g_append = 0, g_align = 0, g_pool = 0, g_n0 = 3;
 static int g_maxn = 5, g_maxseg = 4;
 static int g_R; /* offset range: [-g_R, g_R] */
+static int g_fill_repeat;
 
 struct model {
     int n;
@@ -71,7 +72,8 @@ static struct ubuf *blk_alloc(struct st *s, int size)
     int total = size + prepend + append + align;
     s->area_seq++;
     for (int k = 0; k < total; k++)
-        b->buffer[k] = (uint8_t)(s->area_seq * 37 + (k - (int)b->offset) * 5 + 1);
+        b->buffer[k] = g_fill_repeat ? (uint8_t)(((k - (int)b->offset + 64 + s->area_seq) % 4) == 3)
+                                     : (uint8_t)(s->area_seq * 37 + (k - (int)b->offset) * 5 + 1);
     return u;
 }
 
@@ -313,6 +315,36 @@ static int sweep(struct st *st, struct ubuf *u, const struct model *m)
                     return sweep_fail("scan", start, byte, "found at %zu a byte that does not occur", off);
                 if (start <= n && (int)off != n)
                     return sweep_fail("scan", start, byte, "not found: offset left at %zu, total size is %d", off, n);
+            }
+            /* words of 3 and 4 octets taken from the content (and a perturbed
+             * copy): with a repeating fill these have self-overlapping prefixes */
+            for (int len = 3; len <= 4 && bi < n; len++) {
+                for (int pert = 0; pert < 2; pert++) {
+                    unsigned int w[4];
+                    for (int k = 0; k < len; k++)
+                        w[k] = bi + k < n ? m->b[bi + k] : m->b[(bi + k) % n];
+                    if (pert)
+                        w[len - 1] ^= 1;
+                    int want2 = -1;
+                    for (int i = start; i + len <= n; i++) {
+                        bool eq = true;
+                        for (int k = 0; k < len; k++)
+                            eq &= m->b[i + k] == w[k];
+                        if (eq) {
+                            want2 = i;
+                            break;
+                        }
+                    }
+                    size_t off2 = start;
+                    int err2 = len == 3 ? ubuf_block_find(u, &off2, 3, w[0], w[1], w[2])
+                                        : ubuf_block_find(u, &off2, 4, w[0], w[1], w[2], w[3]);
+                    if (want2 >= 0) {
+                        if (!ubase_check(err2) || (int)off2 != want2)
+                            return sweep_fail("find", start, len, "%d-octet word %02x %02x %02x..: err=%d offset=%zu, word is at %d",
+                                              len, w[0], w[1], w[2], err2, off2, want2);
+                    } else if (ubase_check(err2))
+                        return sweep_fail("find", start, len, "found at %zu a %d-octet word that does not occur", off2, len);
+                }
             }
             if (bi + 1 < n) {
                 /* two-octet word */
@@ -783,6 +815,7 @@ int main(int argc, char **argv)
         else if (!strcmp(argv[i], "--n0")) g_n0 = atoi(argv[++i]);
         else if (!strcmp(argv[i], "--maxn")) g_maxn = atoi(argv[++i]);
         else if (!strcmp(argv[i], "--maxseg")) g_maxseg = atoi(argv[++i]);
+        else if (!strcmp(argv[i], "--fill")) g_fill_repeat = !strcmp(argv[++i], "repeat");
         else if (!strcmp(argv[i], "--depth")) depth = atoi(argv[i + 1]);
     }
     build_alphabet();
